@@ -727,6 +727,11 @@ func vfRouteCheck(t *testing.T, property string, testName string) {
 		}
 	}()
 	props := map[string]bool{property: true}
+	if property == "C05" {
+		// a translation that reaches a source shard with the wrong value shows as an acknowledgement that is too high
+		// (C01's and C03's oracles): in the table's own check these count against the table
+		props["C01"], props["C03"] = true, true
+	}
 	if p := vrt.ReplayPath(); p != "" {
 		vfRouteReplay(t, p, props, res)
 		return
